@@ -744,6 +744,15 @@ impl AbstractSyntaxTree for Function {
                 })
                 .collect::<Result<Arc<[FunctionParam]>, Error>>()
                 .with_span(from)?;
+            for (index, param) in params.iter().enumerate() {
+                if params[..index]
+                    .iter()
+                    .any(|earlier| earlier.identifier() == param.identifier())
+                {
+                    return Err(Error::VariableReuseInPattern(param.identifier().clone()))
+                        .with_span(from);
+                }
+            }
             let ret = from
                 .ret()
                 .as_ref()
